@@ -383,6 +383,10 @@ class LoopRun:
         else:
             env['done'] = Sym(xs.kind, z3.SubSeq(xs.t, 0, k.t if isinstance(k, Sym) else z3.IntVal(k)))
         env.update(self.inputs_env)
+        env.update(getattr(self, 'extra_env', {}))
+        if 'fs' in ex.run.ghost:
+            env['fs'] = ex.run.ghost['fs']
+            env['fs0'] = ex.run.ghost['fs0']
         if extra:
             env.update(extra)
         return env
@@ -397,6 +401,10 @@ class LoopRun:
         lp = self.lp
         cid = self.contract.id
         self.inputs_env = dict(run.ghost.get('_input_values', {}))
+        self.extra_env = {}
+        if lp.fs:
+            from . import fsmodel
+            self.extra_env['fs_loop0'] = fsmodel.fs_of(ex).clone()
         n = z3.Length(xs.t)
         # declared cells get their declared kind (an empty python list has no element kind of its own)
         for name, kind in lp.cells.items():
@@ -445,6 +453,14 @@ class LoopRun:
                     loops.wf_map(ex, s)
             else:
                 obj.fields[attr] = s
+        if lp.fs:
+            from . import fsmodel
+            g = fsmodel.fs_of(ex)
+            self.extra_env['fs_loop0'] = g.clone()
+            S_ = z3.StringSort()
+            g.kind = z3.Array(f'L{ordinal}_fs_kind', S_, z3.IntSort())
+            g.content = z3.Array(f'L{ordinal}_fs_content', S_, z3.IntSort())
+            g.complete = z3.Array(f'L{ordinal}_fs_complete', S_, z3.BoolSort())
         k = run.fresh(K.Int, f'L{ordinal}_k')
         run.assume(z3.And(k.t >= 0, k.t <= n))
         hyp = self.inv(ex, fr, k, xs)
